@@ -161,8 +161,9 @@ def r2(ctx):
                 # rng = default_rng() if rng is None else rng   /   rng = rng if rng is not None else default_rng()
                 t = U(asg.test).replace(" ", "")
                 outer = par.get(asg)
+                # (bound to a local, or handed on directly as an argument: either way the value is `rng` unless rng is None)
                 ok = ((t == "rngisNone" and asg.body is c and U(asg.orelse) == "rng") or (t == "rngisnotNone" and asg.orelse is c and U(asg.body) == "rng")) \
-                    and isinstance(outer, ast.Assign) and len(outer.targets) == 1 and isinstance(outer.targets[0], ast.Name)
+                    and ((isinstance(outer, ast.Assign) and len(outer.targets) == 1 and isinstance(outer.targets[0], ast.Name)) or isinstance(outer, (ast.keyword, ast.Call)))
             ctx.check("R2", f"{f.site()}::default_rng()", ok, "unseeded generator only as the `if rng is None` fallback of parameter rng",
                       "an unseeded default_rng() is created outside the `if rng is None` fallback of an `rng` parameter: output cannot be reproduced")
 
